@@ -49,6 +49,16 @@ def opUtilityEvaluate (args : List SExp) : R SExp := do
     pure (encR r fun l => .list (l.map encEntry))
   | _ => throw "utility-evaluate: arity"
 
+/-- `(utility-values dmp)`: the (rounded) value every considered alternative is reported with, keyed
+    by id — the part of `Evaluate` that C03 is about (order and links are C04's) -/
+def opUtilityValues (args : List SExp) : R SExp := do
+  match args with
+  | [d] =>
+    let dmp : DMP Float ← decDMP d
+    let r : R (KMap Float) := dmp.co.mapM fun a => do pure (a.id, round8 (← utilityValue dmp.mp a))
+    pure (encR r encNumMap)
+  | _ => throw "utility-values: arity"
+
 /-- `(check-c03 method alt params value)` — exact comparison of Go's value with the defining
     formula.  `params`: `(wcrit...)` for ws/owa, parsed capacity map for choquet.
     Answers `ok`, `skip:<why>` (ill-conditioned, not alarmed) or the failing clause. -/
@@ -86,6 +96,6 @@ def opCheckC03 (args : List SExp) : R SExp := do
 
 def utilityOps : List (String × (List SExp → R SExp)) :=
   [("ws-value", opWsValue), ("owa-value", opOwaValue), ("choquet-value", opChoquetValue),
-   ("utility-evaluate", opUtilityEvaluate), ("check-c03", opCheckC03)]
+   ("utility-evaluate", opUtilityEvaluate), ("utility-values", opUtilityValues), ("check-c03", opCheckC03)]
 
 end Rdm.Ops
